@@ -147,3 +147,13 @@ Definition leading_ws_fit (s : text) : bool :=
       end
     else true
   end.
+
+(* ---- how many lines are dropped at the top ---------------------------------------------------------- *)
+Definition is_empty (l : text) : bool := match l with [] => true | _ => false end.
+Definition lead_blank (ls : list text) : nat := length (take_while blank ls).
+Definition lead_empty (ls : list text) : nat := length (take_while is_empty ls).
+
+(* the number of leading whitespace-only lines of the value: what a reader of the source sees above the text *)
+Definition top_dropped (s : text) : nat := lead_blank (split_nl (expandtabs s)).
+(* the number of lines cleandoc really removes at the top (when the docstring has text) *)
+Definition top_kept (s : text) : nat := lead_empty (dedent (split_nl (expandtabs s))).
